@@ -150,11 +150,12 @@ func (m *MTProto) makeAuthKey() error { // nolint don't know how to make method 
 	if nonceServer.Cmp(dhg.ServerNonce.Int) != 0 {
 		return fmt.Errorf("handshake: Wrong server_nonce: %v, %v", nonceServer, dhg.ServerNonce)
 	}
-	if !bytes.Equal(nonceHash1, dhg.NewNonceHash1.Bytes()) {
+	// all 16 bytes of the received hash: Bytes() drops leading zero bytes
+	if gotHash1 := dry.BigIntBytes(dhg.NewNonceHash1.Int, 128); !bytes.Equal(nonceHash1, gotHash1) {
 		return fmt.Errorf(
 			"handshake: Wrong new_nonce_hash1: %v, %v",
 			hex.EncodeToString(nonceHash1),
-			hex.EncodeToString(dhg.NewNonceHash1.Bytes()),
+			hex.EncodeToString(gotHash1),
 		)
 	}
 
